@@ -126,8 +126,12 @@ class Lab(object):
         if isinstance(v, list) and name == '_ignored':
             return 'U:_ignored'
         if isinstance(v, list) and all(isinstance(x, str) for x in v):
+            if self.cfg.get('pct'):
+                v = [x[:-3] if x.endswith('%41') else x for x in v]
             return v[0] if len(v) == 1 else 'LIST:' + ','.join(v)
         if isinstance(v, str):
+            if self.cfg.get('pct') and v.endswith('%41'):
+                return v[:-3]             # the segment as sent: 'U:a%41'
             return v
         return 'OTHER:' + repr(v)[:40]
 
@@ -151,6 +155,9 @@ class Lab(object):
                 from clastic import errors
                 base = {'409': errors.Conflict, '410': errors.Gone, '418': errors.ImATeapot}[name[4:]]
                 self.exc_classes[name] = type(str(name), (base,), {})
+            elif name.endswith('T'):
+                # an application error that happens to derive from TypeError (a schema error, a coercion error)
+                self.exc_classes[name] = type(str(name), (TypeError,), {})
             else:
                 self.exc_classes[name] = type(str(name), (Exception,), {})
         return self.exc_classes[name]
@@ -303,7 +310,7 @@ class Lab(object):
             base = 'Middleware'
             if spec.get('base') is not None and spec['base'] in classes:
                 base = 'Base'             # a middleware type derived from another middleware type of the configuration
-            body = ['class MW%d(%s):' % (key, base),
+            body = ['class %s(%s):' % (spec.get('clsname') or 'MW%d' % key, base),
                     '    unique = %r' % bool(spec['unique']),
                     '    reorderable = %r' % bool(spec['reorderable']),
                     '    provides = %r' % (tuple(spec['provides']),),
@@ -322,7 +329,7 @@ class Lab(object):
             if base == 'Base':
                 ns['Base'] = classes[spec['base']][0]
             exec('\n'.join(body) + '\n', ns)
-            classes[key] = (ns['MW%d' % key], spec)
+            classes[key] = (ns[spec.get('clsname') or 'MW%d' % key], spec)
         cls, first = classes[key]
         obj = cls(spec['inst'])
         if first is not spec:
@@ -382,8 +389,14 @@ class Lab(object):
                 # while doing so, and then steps aside with a non-breaking 404: the real route answers the outer request
                 routes.append((Route if cfg.get('reenter') else POST)('/<%s>/k%s' % (n, binds), ep2, rn2, middlewares=route_mws, resources=dres))
             via_factory = bool(cfg['render'].get('factory'))
-            routes.append(Route(pattern, ep, 'render-argument' if via_factory else rn, middlewares=route_mws,
-                                resources=dict((n, self.reg['R:' + n]) for n in cfg['route_resources'])))
+            rr = dict((n, self.reg['R:' + n]) for n in cfg['route_resources'])
+            rm = list(route_mws)
+            routes.append(Route(pattern, ep, 'render-argument' if via_factory else rn, middlewares=rm, resources=rr))
+            if cfg.get('reuse_args'):
+                # the caller goes on using the list and the dict it passed (the next route of its section gets more)
+                rr.clear()
+                rr['zz_later'] = Sent('R:zz_later!of-a-later-route')
+                del rm[:]
             factory = (lambda arg: rn) if via_factory else None        # the render function comes out of the render factory
             handler = ErrorHandler(reraise_uncaught=True)
             if cfg.get('outer'):
@@ -452,10 +465,11 @@ def impl(cfg):
     # 'dslash': the client repeats the separator in front of every single-valued bound segment (the route is a leaf:
     # served as is; what a multi binding makes of empty segments is C05's subject, see O3)
     sep = '//' if cfg.get('dslash') else '/'
-    route_path = '/r/k' + ''.join(('/' if u in cfg.get('url_multi', ()) else sep) + ('0' if u in cfg.get('url_int0', ()) else 'U:' + u)
+    pct = '%41' if cfg.get('pct') else ''      # the segment still contains a percent sign after the server's decoding
+    route_path = '/r/k' + ''.join(('/' if u in cfg.get('url_multi', ()) else sep) + ('0' if u in cfg.get('url_int0', ()) else 'U:' + u + pct)
                                   for u in cfg['url'])    # a multi binding takes exactly one segment here
     if cfg.get('outer'):
-        route_path = (''.join(sep + 'U:%s' % u for u in cfg['outer']['prefix_url']) or '/pre') + route_path
+        route_path = (''.join(sep + 'U:%s' % u + pct for u in cfg['outer']['prefix_url']) or '/pre') + route_path
     obs = {'construct': 'ok'}
     for name, path in (('null', '/zzz/nomatch'), ('route', route_path)):
         o1, t1, d1 = lab.request(path)
@@ -537,7 +551,7 @@ def gen_config(rng, defect=None, posonly=False, embed=None, valid_base=None):
 
 
 def _gen_config(rng, defect=None, posonly=False, embed=None):
-    pool = ALPHA + ['request', '_route', '_application', '_dispatch_state', 'context', 'e', 'f']
+    pool = ALPHA + ['request', '_route', '_application', '_dispatch_state', 'context', 'e', 'f', '_error']
     url = rng.sample(ALPHA, rng.choice([0, 0, 1, 1, 2]))
     rest = [x for x in ALPHA + ['e', 'f'] if x not in url]
     resources = rng.sample(rest, rng.choice([0, 0, 1, 2]))
@@ -615,9 +629,13 @@ def _gen_config(rng, defect=None, posonly=False, embed=None):
         ep_acc += t['endpoint_provides']
         rn_acc += t['render_provides']
 
+    if len(types) >= 2 and rng.random() < 0.2:
+        for t in list(types.values())[:2]:
+            t['clsname'] = 'Shared'       # two unrelated classes that happen to have one name (two modules' Guard classes)
+
     def spec(m):
         t = m['type']
-        return {'inst': m['inst'], 'id': t['id'], 'unique': t['unique'], 'reorderable': t['reorderable'],
+        return {'inst': m['inst'], 'id': t['id'], 'unique': t['unique'], 'reorderable': t['reorderable'], 'clsname': t.get('clsname'),
                 'request': t['sigs']['request'], 'endpoint': t['sigs']['endpoint'], 'render': t['sigs']['render'],
                 'provides': t['provides'], 'endpoint_provides': t['endpoint_provides'],
                 'render_provides': t['render_provides']}
@@ -661,6 +679,10 @@ def _gen_config(rng, defect=None, posonly=False, embed=None):
         cfg['dslash'] = True
     if cfg.get('decoy') and not cfg['scripts']['mw'] and rng.random() < 0.6:
         cfg['reenter'] = True
+    if rng.random() < 0.3:
+        cfg['pct'] = True
+    if rng.random() < 0.3:
+        cfg['reuse_args'] = True
     if rng.random() < 0.25:
         # one letter of the alphabet becomes a name the framework's generated code uses itself
         cfg = rename(cfg, rng.choice(ALPHA), rng.choice(EXOTIC))
@@ -916,13 +938,13 @@ def gen_scripts(rng, cfg):
         tgt = rng.choice(['mw', 'mw', 'mw', 'ep', 'rn']) if funcs else rng.choice(['ep', 'rn'])
         if tgt == 'mw':
             ph, inst = rng.choice(funcs)
-            s = rng.choice([['raise', 'ErrB'], ['raise', 'Http409'], ['call', ['raise_after', 'Http410']],
+            s = rng.choice([['raise', 'ErrB'], ['raise', 'ErrBT'], ['raise', 'Http409'], ['call', ['raise_after', 'Http410']],
                             ['early', 'EARLY%d' % inst], ['call', ['raise_after', 'ErrA']],
                             ['call', ['swallow', 'SW%d' % inst]], ['call', ['replace', 'RP%d' % inst]]])
             if not any(p == ph and i == inst for p, i, _ in sc['mw']):
                 sc['mw'].append([ph, inst, s])
         elif tgt == 'ep':
-            sc['ep'] = rng.choice([['resp', 'EPRESP'], ['raise', 'ErrE'], ['raise', 'Http418'], ['ctx', 'CTX2']])
+            sc['ep'] = rng.choice([['resp', 'EPRESP'], ['raise', 'ErrE'], ['raise', 'ErrET'], ['raise', 'Http418'], ['ctx', 'CTX2']])
         else:
-            sc['rn'] = rng.choice([['raise', 'ErrR'], ['raise', 'Http409'], ['non', 'NON'], ['resp', 'RN2']])
+            sc['rn'] = rng.choice([['raise', 'ErrR'], ['raise', 'ErrRT'], ['raise', 'Http409'], ['non', 'NON'], ['resp', 'RN2']])
     return sc
